@@ -398,9 +398,31 @@ static void build_rotdau(vf::Run& R, Geo& G)
 // propagation loop consumed each straight-line query (coverage tags only; it does not change
 // any answer).  FieldPropagator is a template on the track view (CheckedGeoTrackView in the
 // unit tests plays the same role).
+// Record of what the FieldDriver did during one propagator call, filled by CountStepper (every
+// stepper application) and TraceGeo (find_next_step is called exactly once after every
+// FieldDriver::advance, which delimits the advances).  Observation only.
+struct AppRec
+{
+    double h;  // trial length handed to the stepper
+    Real3 pos, mom;  // start state of the application
+    double dchord;  // sagitta of this application (same arithmetic as detail::distance_chord)
+    double err_sq;  // truncation error estimate relative to h and |p|, NOT yet divided by eps^2
+    int adv;  // index of the FieldDriver::advance call it belongs to
+};
+struct DriverTrace
+{
+    bool full{false};  // keep every application (only for option sets with a small max_nsteps)
+    int adv{0};
+    bool adv_open{false};
+    double h_first{0};  // first trial length of the advance that is being recorded
+    double last_h_first{0};  // ... of the most recent advance that was followed by a find_next_step
+    std::vector<AppRec> apps;
+};
+
 struct TraceGeo
 {
     OrangeTrackView& g;
+    DriverTrace* tr{nullptr};
     int n_find{0}, n_accept{0}, n_retry{0}, n_setdir{0}, n_to_boundary{0};
     bool last_hit{false}, pending{false};
     bool endpoint_before_intercept{false};
@@ -420,6 +442,12 @@ struct TraceGeo
         if (pending && last_hit)
             ++n_retry;
         ++n_find;
+        if (tr)
+        {
+            tr->last_h_first = tr->h_first;
+            tr->adv_open = false;
+            ++tr->adv;
+        }
         Propagation p = g.find_next_step(d);
         if (verbose)
             fprintf(stderr, "      find from (%.9g,%.9g,%.9g) along (%.6g,%.6g,%.6g) up to %.9g -> %.9g %s\n",
@@ -637,10 +665,22 @@ static std::vector<OptSet> make_options(bool thorough)
         o.max_substeps = 100;
         v.push_back({"sub100", o});
     }
+    // max_nsteps budgets: 1 (every trial loop gives up after its first rejected trial), 3, and
+    // 10 (the chord search, which at least halves, still converges for R <= step <= 1e3 R unless
+    // R >> delta_chord; accurate_advance runs out after 10 integrations)
+    for (int n : {3, 1, 10})
     {
         FieldDriverOptions o;
-        o.max_nsteps = 3;
-        v.push_back({"nsteps3", o});
+        o.max_nsteps = n;
+        v.push_back({fmt("nsteps%d", n), o});
+    }
+    {
+        // bump_distance (0.1 delta_intersection = 1e-6) < minimum_step (5e-6): in every other set
+        // bump_distance >= minimum_step, mostly equal
+        FieldDriverOptions o;
+        o.minimum_step = 5e-6;
+        o.delta_intersection = 1e-5;
+        v.push_back({"bumplt", o});
     }
     if (thorough)
     {
@@ -789,10 +829,48 @@ struct CountStepper
     S s;
     int* n;
     bool verbose{false};
+    DriverTrace* tr{nullptr};
     FieldStepperResult operator()(real_type h, OdeState const& y) const
     {
         ++*n;
         FieldStepperResult r = s(h, y);
+        if (tr)
+        {
+            if (!tr->adv_open)
+            {
+                tr->adv_open = true;
+                tr->h_first = h;
+            }
+            if (tr->full)
+            {
+                AppRec a;
+                a.h = h;
+                a.pos = y.pos;
+                a.mom = y.mom;
+                a.adv = tr->adv;
+                // sagitta |AB x AM| / |AB| and max(|err_x|^2/h^2, |err_p|^2/|p|^2), written out
+                // here with the library's operation order: they only mirror which branch the
+                // driver took (they decide nothing about right or wrong)
+                double am[3], ab[3];
+                for (int i = 0; i < 3; ++i)
+                {
+                    am[i] = r.mid_state.pos[i] - y.pos[i];
+                    ab[i] = r.end_state.pos[i] - y.pos[i];
+                }
+                double c[3] = {ab[1] * am[2] - ab[2] * am[1], ab[2] * am[0] - ab[0] * am[2],
+                               ab[0] * am[1] - ab[1] * am[0]};
+                a.dchord = std::sqrt((c[0] * c[0] + c[1] * c[1] + c[2] * c[2])
+                                     / (ab[0] * ab[0] + ab[1] * ab[1] + ab[2] * ab[2]));
+                double ep = r.err_state.pos[0] * r.err_state.pos[0] + r.err_state.pos[1] * r.err_state.pos[1]
+                            + r.err_state.pos[2] * r.err_state.pos[2];
+                double em = r.err_state.mom[0] * r.err_state.mom[0] + r.err_state.mom[1] * r.err_state.mom[1]
+                            + r.err_state.mom[2] * r.err_state.mom[2];
+                ep /= h * h;
+                em /= y.mom[0] * y.mom[0] + y.mom[1] * y.mom[1] + y.mom[2] * y.mom[2];
+                a.err_sq = std::max(ep, em);
+                tr->apps.push_back(a);
+            }
+        }
         if (verbose)
             fprintf(stderr, "        stepper h=%.9g from (%.9g,%.9g,%.9g) -> end (%.9g,%.9g,%.9g) mid (%.9g,%.9g,%.9g) |errpos|/h=%.3g |errmom|/p=%.3g |p_end|/|p|-1=%.3g\n",
                     h, y.pos[0], y.pos[1], y.pos[2], r.end_state.pos[0], r.end_state.pos[1], r.end_state.pos[2],
@@ -807,6 +885,85 @@ struct CountStepper
     }
 };
 
+// Which "ran out of trials" exits of the FieldDriver were taken during one propagator call.
+// Replays FieldDriver::advance on the recorded applications: per advance the leading applications
+// are find_next_chord trials (at most max_nsteps, until the sagitta passes); if more applications
+// follow, the chord state was discarded and accurate_advance ran (groups of one_good_step trials
+// that share a start state, at most max_nsteps each, until the error estimate passes).
+struct Exhaust
+{
+    bool chord_kept{false};  // find_next_chord ran out and its (step, state) pair was returned
+    bool chord_discarded{false};  // ... ran out but accurate_advance replaced the result
+    bool ogs{false};  // one_good_step ran out (its rescaled step is returned with the state of
+                      // the last, rejected, trial)
+    bool acc_budget{false};  // accurate_advance used all of its max_nsteps integrations
+    bool any_mismatch() const { return chord_kept || ogs; }
+};
+static Exhaust analyse_trace(DriverTrace const& tr, FieldDriverOptions const& o)
+{
+    Exhaust x;
+    double const dc_thr = o.delta_chord + FieldDriverOptions::dchord_tol;
+    double const eps2 = o.epsilon_rel_max * o.epsilon_rel_max;
+    size_t const n_all = tr.apps.size();
+    size_t b = 0;
+    while (b < n_all)
+    {
+        size_t e = b;
+        while (e < n_all && tr.apps[e].adv == tr.apps[b].adv)
+            ++e;
+        // [b, e) is one FieldDriver::advance
+        size_t i = b;
+        if (!(tr.apps[b].h <= o.minimum_step))
+        {
+            int trials = 0;
+            bool ok = false;
+            while (i < e)
+            {
+                ++trials;
+                bool const fail = tr.apps[i].dchord > dc_thr;
+                ++i;
+                if (!fail)
+                {
+                    ok = true;
+                    break;
+                }
+                if (trials == o.max_nsteps)
+                    break;
+            }
+            if (!ok)
+                (i == e ? x.chord_kept : x.chord_discarded) = true;
+            int integrations = 0;
+            while (i < e)
+            {
+                ++integrations;
+                if (tr.apps[i].h <= o.minimum_step)
+                {
+                    ++i;  // integrate_step: quick advance
+                    continue;
+                }
+                size_t const g0 = i;
+                trials = 0;
+                bool fail = false;
+                while (i < e && tr.apps[i].pos == tr.apps[g0].pos && tr.apps[i].mom == tr.apps[g0].mom
+                       && trials < o.max_nsteps)
+                {
+                    ++trials;
+                    fail = tr.apps[i].err_sq / eps2 > 1;
+                    ++i;
+                    if (!fail)
+                        break;
+                }
+                if (fail && trials == o.max_nsteps)
+                    x.ogs = true;
+            }
+            if (integrations >= o.max_nsteps)
+                x.acc_budget = true;
+        }
+        b = e;
+    }
+    return x;
+}
+
 // direct == true : make_mag_field_propagator (the anchored factory), no counting
 // direct == false: make_mag_field_stepper + CountStepper + make_field_propagator (the two
 //                  functions the factory is composed of)
@@ -817,13 +974,19 @@ static Propagation run_prop(FieldT& field,
                             GTV& geo,
                             real_type step,
                             bool direct,
-                            int* nsteps)
+                            int* nsteps,
+                            DriverTrace* tr = nullptr)
 {
+    // step < 0: FieldPropagator::operator()() (no step limit)
     if (direct)
-        return make_mag_field_propagator<StepperT>(field, opts, particle, geo)(step);
+    {
+        auto prop = make_mag_field_propagator<StepperT>(field, opts, particle, geo);
+        return step < 0 ? prop() : prop(step);
+    }
     auto stepper = make_mag_field_stepper<StepperT>(field, particle.charge());
-    CountStepper<decltype(stepper)> cs{stepper, nsteps, g_verbose_stepper};
-    return make_field_propagator(cs, opts, particle, geo)(step);
+    CountStepper<decltype(stepper)> cs{stepper, nsteps, g_verbose_stepper, tr};
+    auto prop = make_field_propagator(cs, opts, particle, geo);
+    return step < 0 ? prop() : prop(step);
 }
 
 template<class GTV>
@@ -835,7 +998,8 @@ static Propagation propagate_once(SF const& sf,
                                   GTV& geo,
                                   real_type step,
                                   bool direct,
-                                  int* nsteps)
+                                  int* nsteps,
+                                  DriverTrace* tr = nullptr)
 {
     switch (sf.fk)
     {
@@ -844,23 +1008,23 @@ static Propagation propagate_once(SF const& sf,
         case Fk::uobl: {
             UniformField field(Real3{double(B[0]), double(B[1]), double(B[2])});
             if (sf.st == St::dp)
-                return run_prop<DormandPrinceStepper>(field, opts, particle, geo, step, direct, nsteps);
-            return run_prop<RungeKuttaStepper>(field, opts, particle, geo, step, direct, nsteps);
+                return run_prop<DormandPrinceStepper>(field, opts, particle, geo, step, direct, nsteps, tr);
+            return run_prop<RungeKuttaStepper>(field, opts, particle, geo, step, direct, nsteps, tr);
         }
         case Fk::uzf: {
             UniformZField field{double(B[2])};
             if (sf.st == St::dp)
-                return run_prop<DormandPrinceStepper>(field, opts, particle, geo, step, direct, nsteps);
+                return run_prop<DormandPrinceStepper>(field, opts, particle, geo, step, direct, nsteps, tr);
             if (sf.st == St::rk4)
-                return run_prop<RungeKuttaStepper>(field, opts, particle, geo, step, direct, nsteps);
-            return run_prop<ZHelixStepper>(field, opts, particle, geo, step, direct, nsteps);
+                return run_prop<RungeKuttaStepper>(field, opts, particle, geo, step, direct, nsteps, tr);
+            return run_prop<ZHelixStepper>(field, opts, particle, geo, step, direct, nsteps, tr);
         }
         case Fk::rzu:
         case Fk::rzs: {
             RZMapField field((sf.fk == Fk::rzu ? fs.rz_uniform : fs.rz_smooth)->host_ref());
             if (sf.st == St::dp)
-                return run_prop<DormandPrinceStepper>(field, opts, particle, geo, step, direct, nsteps);
-            return run_prop<RungeKuttaStepper>(field, opts, particle, geo, step, direct, nsteps);
+                return run_prop<DormandPrinceStepper>(field, opts, particle, geo, step, direct, nsteps, tr);
+            return run_prop<RungeKuttaStepper>(field, opts, particle, geo, step, direct, nsteps, tr);
         }
     }
     return {};
@@ -1045,6 +1209,9 @@ int main(int argc, char** argv)
         if (R.mine(nblocks + z))
             zhelix_domain_cases(R, z);
 
+    char const* const only_filter = getenv("C08_ONLY");
+    if (only_filter)
+        R.cap_hit(std::string("C08_ONLY=") + only_filter + " (block filter: not the declared lattice)");
     for (uint64_t bi = 0; bi < nblocks; ++bi)
     {
         if (!R.mine(bi))
@@ -1075,6 +1242,8 @@ int main(int argc, char** argv)
                               G.name.c_str(), sf.name.c_str(), q < 0 ? '-' : '+', ir, O.name.c_str());
         if (R.replay() && R.replay_case().compare(0, bid.size(), bid) != 0)
             continue;
+        if (only_filter && bid.find(only_filter) == std::string::npos)
+            continue;  // developer aid (mutation runs): C08_ONLY=<substring of the block id>
         R.begin_case(bid, 120);
         double const t_block = R.elapsed();
 
@@ -1103,6 +1272,7 @@ int main(int argc, char** argv)
         TolModel T{O.o.epsilon_rel_max, O.o.minimum_step, O.o.delta_intersection, O.o.delta_chord,
                    FieldDriverOptions::dchord_tol};
         double const bump = O.o.delta_intersection * 0.1;
+        bool const trace_full = O.o.max_nsteps < 100;  // record every stepper application
 
         std::vector<double> steps = {0.5 * O.o.minimum_step,
                                      O.o.minimum_step,
@@ -1176,14 +1346,24 @@ int main(int argc, char** argv)
                                    vf::dstr(steps[is]).c_str(), k, radius, vf::dstr(ke).c_str());
                     };
                     std::string const stsig = zh ? "[zhelix]" : "";
+                    // Exits of the FieldDriver trial loops that return a (step, state) pair which do
+                    // not belong together are findings of their own (see analyse_trace); they are
+                    // only reachable with a small max_nsteps.  A violation is attributed to such a
+                    // mechanism ONLY if the mechanism was observed in the very call that is judged
+                    // (for the cumulative oracle: in some call of the trajectory so far), and the
+                    // oracle that noticed it stays in the signature.
+                    Exhaust ex_call, ex_traj;
                     auto viol = [&](std::string const& sig, std::string const& msg) {
-                        // With max_nsteps = 3 the chord search runs out of trials; everything that
-                        // follows from that is one finding, whichever oracle notices it first.
-                        bool const fold = (O.name == "nsteps3"
-                                           && sig.find("direction-kink-landing") == std::string::npos);
-                        R.violation(fold ? "driver:chord-search-exhausted(max_nsteps=3)-step-and-state-disagree"
-                                         : sig + stsig,
-                                    full_id(), describe() + " :: [" + sig + "] " + msg);
+                        bool const cumulative = sig.find("subdivided-path") != std::string::npos;
+                        Exhaust const& x = cumulative ? ex_traj : ex_call;
+                        std::string out = sig + stsig;
+                        if (sig.find("direction-kink-landing") != std::string::npos)
+                            ;
+                        else if (x.chord_kept)
+                            out = "driver:chord-search-exhausted-step-and-state-disagree[" + out + "]";
+                        else if (x.ogs)
+                            out = "driver:one-good-step-exhausted-step-and-state-disagree[" + out + "]";
+                        R.violation(out, full_id(), describe() + " :: [" + sig + "] " + msg);
                     };
 
                     //// initialise the track ////
@@ -1270,10 +1450,30 @@ int main(int argc, char** argv)
 
                         TraceGeo tg{geo};
                         tg.verbose = R.verbose();
+                        DriverTrace dtr;
+                        dtr.full = trace_full;
+                        tg.tr = &dtr;
                         int nst = 0;
-                        Propagation r = propagate_once(sf, fs, B, O.o, particle, tg, sub, false, &nst);
+                        Propagation r = propagate_once(sf, fs, B, O.o, particle, tg, sub, false, &nst, &dtr);
                         ++ncalls;
                         R.count("evaluations");
+                        ex_call = Exhaust{};
+                        if (trace_full)
+                        {
+                            ex_call = analyse_trace(dtr, O.o);
+                            ex_traj.chord_kept |= ex_call.chord_kept;
+                            ex_traj.ogs |= ex_call.ogs;
+                            if (ex_call.chord_kept)
+                                R.tag("driver:chord-search-exhausted(result returned)");
+                            if (ex_call.chord_discarded)
+                                R.tag("driver:chord-search-exhausted(result replaced by accurate_advance)");
+                            if (ex_call.ogs)
+                                R.tag("driver:one-good-step-exhausted");
+                            if (ex_call.acc_budget)
+                                R.tag("driver:accurate-advance-used-all-max_nsteps");
+                            if (!ex_call.any_mismatch())
+                                R.tag("driver:small-max_nsteps-call-judged-under-real-signatures");
+                        }
 
                         if (R.verbose())
                         {
@@ -1345,9 +1545,13 @@ int main(int argc, char** argv)
                         if (kind == 1 && full)
                             viol("flags:looping-after-full-step", fmt("call %d", j));
                         if (r.boundary != geo.is_on_boundary())
+                        {
                             viol("flags:boundary-flag-differs-from-geometry",
                                  fmt("call %d result.boundary=%d geo.is_on_boundary=%d", j, r.boundary,
                                      geo.is_on_boundary()));
+                            // the trajectory cannot be continued (crossing needs a surface state)
+                            stop_traj = true;
+                        }
                         if (geo.is_outside() || geo.volume_id() != vol0)
                             viol("flags:volume-changed-by-propagation",
                                  fmt("call %d volume %s -> %s", j,
@@ -1423,8 +1627,13 @@ int main(int argc, char** argv)
                                 // (FieldPropagator: `update_length <= minimum_substep` commits
                                 // substep.state.mom): the landing chord was hit within minimum_step
                                 // of its start although it is much longer than delta_intersection.
+                                // The committed momentum then belongs to the END of that trial
+                                // substep, whose length is at most the first trial length of the
+                                // last FieldDriver::advance: the direction cannot be off by more
+                                // than that rotation.  Anything larger is not this finding.
                                 bool const at_start = (kind == 2 && tg.last_dist <= T.min_step
-                                                       && tg.last_max - tg.last_dist > 3 * T.d_int);
+                                                       && tg.last_max - tg.last_dist > 3 * T.d_int
+                                                       && ddev <= LD(dtr.last_h_first) * inv_r + tol_dir);
                                 viol(at_start ? "helix:direction-kink-landing-at-start-of-long-substep"
                                               : "helix:end-direction-off-helix",
                                      fmt("call %d |dir - helix dir|=%Lg tol=%Lg (eps-term=%Lg, arc slack %Lg / R %Lg) "
